@@ -230,6 +230,26 @@ class SimpleClassifier(Classifier):
         )
 
 
+def _enclosed_type_variables(t):
+    """
+    The type variables that occur in the given type. Unlike
+    `get_type_variables()`, it does not compute their bounds (which requires
+    a builtin factory).
+    """
+    if t is None:
+        return set()
+    if t.is_type_var():
+        return {t}
+    if t.is_wildcard():
+        return _enclosed_type_variables(t.bound)
+    if t.is_parameterized():
+        type_vars = set()
+        for t_arg in t.type_args:
+            type_vars.update(_enclosed_type_variables(t_arg))
+        return type_vars
+    return set()
+
+
 class TypeParameter(AbstractType):
 
     def __init__(self, name: str, variance=None, bound: Type = None):
@@ -262,7 +282,7 @@ class TypeParameter(AbstractType):
         if bound == other:
             return True
         if hasattr(bound, "get_type_variables"):
-            return other in bound.get_type_variables(None)
+            return other in _enclosed_type_variables(bound)
         return False
 
     def get_bound_rec(self, factory):
